@@ -104,6 +104,19 @@ def run(ctx, model=None):
             for fr in fronts:
                 g = gen.dead_shape_game(rng, kind, pat, front=fr)
                 check_case(ctx, g, model)
+    # the pruning flag is documented as a boolean and used by truth value: 1 / 0 (a CLI or JSON caller) mean True / False
+    for kind in (PR, P1):
+        for pat in gen.all_patterns(3):
+            g = gen.dead_shape_game(rng, kind, pat)
+            for flag, ref in ((1, True), (0, False)):
+                a, b = impl.solve(g, flag, limit=5.0), impl.solve(g, ref, limit=5.0)
+                ctx.case({"game": gen.desc(g), "prune_states": flag}, True)
+                if "Timeout" in (a["outcome"], b["outcome"]):
+                    continue
+                if a["outcome"] != b["outcome"] or repr(a.get("nodes")) != repr(b.get("nodes")) or repr(a.get("res")) != repr(b.get("res")):
+                    ctx.violation("conditioning-by-truth-value-of-the-flag", {"game": gen.desc(g), "prune_states": flag},
+                                  {"with_" + repr(flag): [a["outcome"], repr(a.get("nodes"))[:300]], "with_" + repr(ref): [b["outcome"], repr(b.get("nodes"))[:300]]})
+                    break
     import analysis as _an
     _an.optimized_interpreter(ctx, [gen.dead_shape_game(rng, kind, pat) for kind in (PR, P1) for pat in gen.all_patterns(3)][:16],
                               "no-dead-successor", fields=[2, 3, 6, 7])
